@@ -4,7 +4,7 @@
 # *inside* the pithos module at /repo's current working tree via -overlay,
 # with the "verif" build tag (hooks enabled). Nothing is written into /repo.
 set -euo pipefail
-VERIF=${VERIF_ROOT:-/verif}
+VERIF=${VERIF_ROOT:-$(cd "$(dirname "$0")/.." && pwd)}
 REPO=${VERIF_REPO:-/repo}
 ENGINE=$1
 RACE=${2:-}
